@@ -435,17 +435,18 @@ func handleCorpus(j corpusJob) (res corpusResult) {
 // corpusJobs lists the corpus, fixed order.
 func corpusJobs() []corpusJob {
 	var out []corpusJob
-	dir := filepath.Join("internal", "wat", "watutil", "testdata")
-	ents, _ := os.ReadDir(filepath.Join(mc.RepoDir(), dir))
-	var names []string
-	for _, e := range ents {
-		if strings.HasSuffix(e.Name(), ".wat") {
-			names = append(names, e.Name())
+	for _, dir := range []string{filepath.Join("internal", "wat", "watutil", "testdata"), filepath.Join("internal", "wat", "parser", "testdata")} {
+		ents, _ := os.ReadDir(filepath.Join(mc.RepoDir(), dir))
+		var names []string
+		for _, e := range ents {
+			if strings.HasSuffix(e.Name(), ".wat") {
+				names = append(names, e.Name())
+			}
 		}
-	}
-	sort.Strings(names)
-	for _, n := range names {
-		out = append(out, corpusJob{Kind: "wat", Name: "testdata/" + n, File: filepath.Join(dir, n)})
+		sort.Strings(names)
+		for _, n := range names {
+			out = append(out, corpusJob{Kind: "wat", Name: filepath.Base(filepath.Dir(dir)) + "/testdata/" + n, File: filepath.Join(dir, n)})
+		}
 	}
 	for _, p := range wg.WaCorpus() {
 		out = append(out, corpusJob{Kind: "wa", Name: p.Name, Src: p.Src})
